@@ -314,6 +314,26 @@ func run(tier string, shard, nsh int, res *ev.Result) {
 			}
 		})
 	}
+	// data values (not positions): every 1-byte and every 2-byte payload value, every coil of it
+	for chunk := 0; chunk < 16; chunk++ {
+		chunk := chunk
+		jobs = append(jobs, func(lc *local) {
+			apis := []string{"ReadCoilsResponse.IsCoilSet", "ReadDiscreteInputsResponse.IsInputSet", "ReadDiscreteInputsResponse.IsCoilSet"}
+			for v := chunk * 4096; v < (chunk+1)*4096; v++ {
+				api := apis[v%3]
+				for a := 0; a < 16; a++ {
+					evalLookup(Case{Part: "lookup", API: api, Len: 2, Start: 40, Pattern: "word", K: v, Addr: 40 + a}, res, lc)
+				}
+				if v < 256 {
+					for _, api := range apis {
+						for a := 0; a < 9; a++ {
+							evalLookup(Case{Part: "lookup", API: api, Len: 1, Start: 40, Pattern: "word", K: v << 8, Addr: 40 + a}, res, lc)
+						}
+					}
+				}
+			}
+		})
+	}
 	// write -> device -> read-back for every coil count
 	for lo := 1; lo <= 1968; lo += 41 {
 		lo := lo
